@@ -64,14 +64,14 @@ def specStep (op : Op) (v : View) : View × Err :=
   | .exprReloc =>
     match v.sections[0]? with
     | none => (v, .invalidSection)
-    | some sc => ({ v with relocs := v.relocs ++ [(1, true)], sections := v.sections.set 0 { sc with size := sc.size + 4 } }, .ok)
+    | some sc => ({ v with relocs := v.relocs ++ [(1, true)], sections := v.sections.set 0 { sc with data := sc.data ++ [0, 0, 0, 0] } }, .ok)
   | .newFixup => ({ v with fixups := v.fixups + 1 }, .ok)
   | .freeFixup => if v.fixups = 0 then (v, .invalidState) else ({ v with fixups := v.fixups - 1 }, .ok)
   | .addAddr a => (specAddAddr v a, .ok)
   | .emit sec n =>
     match v.sections[sec]? with
     | none => (v, .invalidSection)
-    | some sc => ({ v with sections := v.sections.set sec { sc with size := sc.size + n } }, .ok)
+    | some sc => ({ v with sections := v.sections.set sec { sc with data := sc.data ++ List.replicate n 0x90 } }, .ok)
   | .vappend x => ({ v with vec := v.vec ++ [x] }, .ok)
   | .vreserve _ => (v, .ok)
   | .sappend n ch => ({ v with str := v.str ++ List.replicate n ch }, .ok)
@@ -107,6 +107,9 @@ structure RunRec where
   /-- the failure-free run -/
   clean : String
   cexec : String
+  /-- the workload repeats every failed call itself (Assembler level) and the faults are a fixed finite set: the run must
+  then complete and produce exactly the failure-free bytes -/
+  strictRetry : Bool := false
   deriving Repr, Inhabited
 
 /-- "completes correctly": the very bytes of the failure-free run, or (only where the workload is executed) other bytes
@@ -123,6 +126,8 @@ def runGood (r : RunRec) : Bool :=
   r.leak == 0 &&
   -- reusable: the same objects and fresh objects reproduce the failure-free output
   sameCode r.reuse r.rexec r.clean r.cexec && r.reuse.contains ':' &&
-  r.fresh == r.clean && r.fexec == r.cexec
+  r.fresh == r.clean && r.fexec == r.cexec &&
+  -- repeating each failed call produces exactly the code of the failure-free run
+  (!r.strictRetry || (r.errOk && r.out == r.clean))
 
 end AsmjitVerif.Fault
